@@ -65,6 +65,30 @@ def run(R):
         R.every_iteration("C09.advertise.every", tir, lambda names, fields: any(n.endswith("get_replicate_candidates") for n in names),
                           CallSink("ant_networking::driver::SwarmDriver::queue_network_swarm_cmd", "*SwarmDriver::queue_network_swarm_cmd"),
                           "every replication target is sent the request", "the replication targets")
+        # the in-range candidates are used whole: nothing truncates the result of get_peers_in_range
+        grc = R.body("C09.candidates.all", "ant_networking::cmd::<impl ant_networking::driver::SwarmDriver>::get_replicate_candidates")
+        if grc is not None:
+            prep(grc)
+            from rules import _chain_calls, DROPPING_ADAPTORS
+            okc = True
+            defs0 = [("s", st, blk) for blk in grc.blocks if not blk["cleanup"] for st in blk["stmts"] if st["d"] == [0]] + \
+                    [("c", blk["term"], blk) for blk in grc.blocks if not blk["cleanup"] and blk["term"]["k"] == "call" and blk["term"]["d"] == [0]]
+            for kind, x, blk in defs0:
+                if kind == "s":
+                    l = op_local(x["rv"]["a"]) if x["rv"]["k"] == "use" else None
+                    names = [(c["ncallee"] or "") for c in backward_calls(grc, l)[1]] if l is not None else []
+                else:
+                    names = [x["ncallee"] or ""]
+                    for a in x["args"]:
+                        if op_local(a) is not None:
+                            names += [(c["ncallee"] or "") for c in backward_calls(grc, op_local(a))[1]]
+                if any(n.endswith("get_peers_in_range") for n in names):
+                    dropped = [n for n in names if any(n.endswith(d) or (d + "<") in n for d in DROPPING_ADAPTORS)]
+                    if dropped:
+                        okc = False
+                        R.viol("C09.candidates.all", "candidates-truncated", "get_replicate_candidates cuts down the peers within the responsible range (%s): in-range neighbours beyond the cut never get the list" % dropped[0].split("::")[-1],
+                               grc, x.get("l"))
+            R.inst("C09.candidates.all", "K6 flows-to", "when enough peers are in range, all of them are replication targets", len(defs0), okc)
         # holder is self, targets are the replicate candidates
         ta = Taint(tir, through="all")
         cand = ta.closure(call_results(["ant_networking::cmd::<impl ant_networking::driver::SwarmDriver>::get_replicate_candidates"])(tir))
@@ -151,6 +175,32 @@ def run(R):
                 R.viol("C09.accept", "unknown-kind:%s" % v, "RecordKind::%s is not in the rule table" % v, sr, sr.lines[0])
         R.inst("C09.accept", "K7 table agreement", "store_replicated_in_record: one storing arm per payment-free kind, none for with-payment kinds", len(tab), ok, {"arms": tab})
 
+    # (4a) a stored record is not refused by an honest neighbour for a reason the original acceptance did not have: in each storing
+    #      arm the only refusals before the store function are a body that does not decode, a key that does not match, and
+    #      (chunks) the existence check's own error — no further Err is constructed in the arm
+    if sr is not None and arms:
+        from props.C04 import TRK, VKE
+        allowed = [CallGuard(["ant_protocol::storage::header::try_deserialize_record"], ("Ok",), "the record body decodes"),
+                   CallGuard([VKE], ("Ok",), "validate_key_and_existence did not fail"),
+                   CmpGuard(lambda b: Taint(b, through="all").closure(call_results([TRK])(b)), lambda b: Taint(b, through="all").closure({d for d, r, p in field_reads(b, "key")}), "Eq",
+                            "record.key == key derived from the content", close=False)]
+        rejects = set()
+        for gd in allowed:
+            rejects |= gd.edges(sr)[2]
+        errs = set(AggSink("core::result::Result", "Err").blocks(sr))
+        oka, na = True, 0
+        for v, want in ARMS[SRIR].items():
+            if want is None or v not in arms:
+                continue
+            na += 1
+            live = g.reach(tuple(arms[v]), cut=rejects)
+            extra = sorted(errs & live)
+            if extra:
+                oka = False
+                R.viol("C09.accept.complete", "extra-refusal:%s" % v, "replicated RecordKind::%s can be refused (Err) for a reason other than an undecodable body or a key mismatch: "
+                       "a record the holder accepted is then never accepted by its neighbours" % v, sr, g.term(extra[0]).get("l"))
+        R.inst("C09.accept.complete", "K4 gate (must-reach)", "storing arms refuse only undecodable bodies and key mismatches before handing over to the store function", na, oka)
+
     # (4b) mutable kinds are always handed to their merge/validate function: the only accepting outcome of those arms is that
     #      function's verdict (an early `Ok(())` would leave two replicas with different versions un-merged)
     if sr is not None and arms:
@@ -226,3 +276,40 @@ def run(R):
             if not okq:
                 R.viol("C09.versions.queue", "queue-ignores-type:%s" % fn, "%s drops queued fetches by key alone: a differing version of the record advertised by another holder is never fetched" % fn, fb, fb.lines[0])
             R.inst("C09.versions.queue", "K6 flows-to", "%s: queued entries are dropped only for the same (key, record type)" % fn, len(rets), okq)
+        # the in-flight entry of a key is completed by the arrival of *any* version of it (a merged / newer version arrives under
+        # another hash): notify_about_new_put clears on_going_fetches by key alone, otherwise the honest holder is blamed at time-out
+        nb = R.body("C09.versions.inflight", RF + "notify_about_new_put")
+        if nb is not None:
+            prep(nb)
+            q2 = Taint(nb).closure({d for d, r, p in field_reads(nb, "on_going_fetches")})
+            rets2 = [blk for blk in nb.blocks if blk["term"]["k"] == "call" and not blk["cleanup"] and (blk["term"]["ncallee"] or "").endswith("::retain") and op_local(blk["term"]["args"][0]) in q2]
+            oki = bool(rets2)
+            for blk in rets2:
+                for cl in closures_passed(F, nb, blk["term"]):
+                    prep(cl)
+                    for c in compare_sites(cl):
+                        ta_, tb_ = cl.locals.get(str(op_local(c["a"])), ""), cl.locals.get(str(op_local(c["b"])), "")
+                        if "RecordType" in ta_ and "RecordType" in tb_:
+                            oki = False
+            if not oki:
+                R.viol("C09.versions.inflight", "inflight-by-type", "notify_about_new_put keeps the in-flight entry of a key when the stored version's type/hash differs from the advertised one: "
+                       "the fetch then times out and its (honest) holder is reported", nb, nb.lines[0])
+            R.inst("C09.versions.inflight", "K6 flows-to", "a stored record completes the in-flight fetches of its key whatever version was advertised", len(rets2), oki)
+        # add_keys' skip tests look at (key, type[, holder]) entries, never at the key alone of an in-flight fetch: a second, differing
+        # version advertised while the first is being fetched must still be queued
+        akb = R.body("C09.versions.skip", ADDK)
+        if akb is not None:
+            prep(akb)
+            oks = True
+            for cl in [c for c in F.item(ADDK) if c.kind == "closure"]:
+                prep(cl)
+                # closures handed to any()/find()/position() over on_going_fetches keys that compare only the Key component
+                for c in compare_sites(cl):
+                    ta_, tb_ = cl.locals.get(str(op_local(c["a"])), ""), cl.locals.get(str(op_local(c["b"])), "")
+                    if "libp2p_kad::record::Key" in ta_ and "libp2p_kad::record::Key" in tb_ and "RecordType" not in ta_ and "(" not in ta_.replace("&", "").strip()[:1]:
+                        par = [blk for blk in akb.blocks if blk["term"]["k"] == "call" and not blk["cleanup"] and cl in closures_passed(F, akb, blk["term"])
+                               and (blk["term"]["ngen"] or "").endswith(("Iterator::any", "Iterator::find", "Iterator::position", "Iterator::all"))]
+                        if par:
+                            oks = False
+                            R.viol("C09.versions.skip", "skip-by-key", "add_keys skips an advertised record because *some* version of its key is being fetched: a differing version advertised meanwhile is never queued", akb, par[0]["term"]["l"])
+            R.inst("C09.versions.skip", "K6 flows-to", "add_keys never skips an advertised version on the key of an in-flight fetch alone", 1, oks)
